@@ -134,6 +134,91 @@ def I128.asBigInt (i : I128) : Int :=
   let b : Nat := i.hi.toNat * 2^64 + i.lo.toNat
   if !i.isUint128 then -(((b ^^^ maxBigUint128) + 1 : Nat) : Int) else (b : Int)
 
+/-! ## big.Int at the level of `big.Word`s, for both word sizes (`intSize == 64` and `intSize == 32`)
+
+A `big.Int` is a sign and a little-endian slice of words (`Bits()`), normalised: no most-significant zero word.
+`W` is the word size in bits.  The functions below transcribe the `len(words)` switches of `Uint128FromBigInt` /
+`Int128FromBigInt` and the slice manipulation of `Uint128.ToBigInt` (grow with `append`, cut with `words[:n]`, store,
+`SetBits` = normalise and clear the sign) branch for branch; the value-level functions above (`wordsToU128`,
+`fromBigInt`, `asBigInt`) are proved to be what they compute (`Lemmas/Conv128Words.lean`). -/
+
+/-- the value of a little-endian word slice -/
+def wordsVal (W : Nat) : List Nat → Nat
+  | [] => 0
+  | w :: t => w + 2^W * wordsVal W t
+
+/-- `nat.norm`: drop the most-significant zero words -/
+def normWords : List Nat → List Nat
+  | [] => []
+  | w :: t =>
+    match normWords t with
+    | [] => if w = 0 then [] else [w]
+    | t' => w :: t'
+
+/-- the normalised words of a natural number (`Bits()` of a `big.Int` with that magnitude); `fuel` bounds the length -/
+def natToWordsAux (W : Nat) : Nat → Nat → List Nat
+  | 0, _ => []
+  | fuel + 1, n => if n = 0 then [] else (n % 2^W) :: natToWordsAux W fuel (n / 2^W)
+def natToWords (W n : Nat) : List Nat := natToWordsAux W n n
+
+def w64 (w : Nat) : BitVec 64 := BitVec.ofNat 64 w
+/-- `(uint64(words[k+1]) << 32) | uint64(words[k])` -/
+def join32 (whi wlo : Nat) : BitVec 64 := (w64 whi <<< 32) ||| w64 wlo
+
+/-- the `switch len(words)` shared by both `FromBigInt` functions (sign ignored), `intSize == W` -/
+def wordsToU128W (W : Nat) (words : List Nat) : U128 :=
+  match words with
+  | [] => U128.zero
+  | [w0] => ⟨0#64, w64 w0⟩
+  | [w0, w1] => if W = 64 then ⟨w64 w1, w64 w0⟩ else ⟨0#64, join32 w1 w0⟩
+  | [w0, w1, w2] => if W = 64 then U128.max else ⟨w64 w2, join32 w1 w0⟩
+  | [w0, w1, w2, w3] => if W = 64 then U128.max else ⟨join32 w3 w2, join32 w1 w0⟩
+  | _ => U128.max
+
+/-- `Uint128FromBigInt(v)` with `v` given as sign and `Bits()` -/
+def U128.fromBigIntW (W : Nat) (neg : Bool) (words : List Nat) : U128 :=
+  if neg then U128.zero else wordsToU128W W words
+
+/-- `Int128FromBigInt(v)` with `v` given as sign and `Bits()` (`v.Sign() >= 0` is `!neg`: a zero is never negative) -/
+def I128.fromBigIntW (W : Nat) (neg : Bool) (words : List Nat) : I128 :=
+  let i := wordsToU128W W words
+  if !neg then
+    if i.lessThan maxInt128AsUint128 then i.asInt128 else I128.max
+  else
+    if i.lessThan minInt128AsAbsUint128 then i.asInt128.neg else I128.min
+
+/-- the words `Uint128.ToBigInt` stores, least significant first -/
+def storedWords (W : Nat) (u : U128) : List Nat :=
+  if W = 64 then [u.lo.toNat, u.hi.toNat]
+  else [(u.lo &&& 0xFFFFFFFF#64).toNat, (u.lo >>> 32).toNat, (u.hi &&& 0xFFFFFFFF#64).toNat, (u.hi >>> 32).toNat]
+
+/-- `words[k] = v` for each stored word in turn (the slice has been made long enough before) -/
+def storeAll : List Nat → Nat → List Nat → List Nat
+  | words, _, [] => words
+  | words, k, v :: vs => storeAll (words.set k v) (k + 1) vs
+
+/-- `Uint128.ToBigInt(b)` on a destination whose `Bits()` are `dest` (any length, any content; the sign of the
+    destination is irrelevant: `SetBits` clears it): grow to `n` words with `append`, **cut to exactly `n` words**, store,
+    `SetBits` (normalise).  `cut = false` is the variant without `words = words[:n]` (contrast theorem only). -/
+def toBigIntWordsGen (cut : Bool) (W : Nat) (dest : List Nat) (u : U128) : List Nat :=
+  let n := if W = 64 then 2 else 4
+  let words := if dest.length < n then dest ++ List.replicate (n - dest.length) 0 else dest
+  let words := if cut then words.take n else words
+  normWords (storeAll words 0 (storedWords W u))
+def U128.toBigIntW (W : Nat) (dest : List Nat) (u : U128) : List Nat := toBigIntWordsGen true W dest u
+
+/-- `Int128.ToBigInt(b)`: `Uint128(i).ToBigInt(b)`, then for a negative value `b.Xor(b, maxBigUint128).Add(b, big1).Neg(b)`
+    (math/big's operations on values); result: sign and `Bits()` -/
+def I128.toBigIntW (W : Nat) (dest : List Nat) (i : I128) : Bool × List Nat :=
+  let ws := U128.toBigIntW W dest i.asUint128
+  if !i.isUint128 then
+    let m := (wordsVal W ws ^^^ maxBigUint128) + 1
+    (decide (m ≠ 0), natToWords W m)
+  else (false, ws)
+
+/-- the value of a sign-and-words `big.Int` -/
+def bigVal (W : Nat) (b : Bool × List Nat) : Int := if b.1 then -(wordsVal W b.2 : Int) else (wordsVal W b.2 : Int)
+
 /-! ## float64 -/
 
 def maxUint64Float : F64 := .fin false (2^52) 12                    -- float64(math.MaxUint64) = 2^64
